@@ -257,4 +257,22 @@ CHECKS = {
         assumptions=["the server's own maximum is 65536 (DefaultMSize) and the client proposes 65536, as the code documents",
                      "19 bytes (the Rversion frame for '9P2000') is the smallest proposal that can carry the version reply"],
     ),
+    "C18": dict(
+        pkg="ramfsx",
+        race=True,
+        level="exploration",
+        groups=[G("^TestC18_Seq$", 800, 8000), G("^TestC18_Conc$", 50, 300, shrinktime="5s")],
+        rule="histories of up to 50 (thorough 100) operations by 1..3 SFileSys sessions on one fresh ramfs instance (verif hook): attach, walk (incl. '..', missing, non-normal names, "
+             "through removed directories), clone, create file/dir, open, read, write, truncate (wstat length), stat, clunk, remove, list; offsets over the whole int64 range "
+             "(dense at 0, len-1, len, len+1, 2^31, 2^63-1, -1, -2^63), counts 0..64 KiB; a third of the histories start with a canned prelude (parameters generated) that creates a stale handle "
+             "to a removed-and-recreated name or a handle inside a removed directory. Oracle: a model tree keyed by node identity (removed-but-referenced nodes live on); reads must return exactly "
+             "the model's bytes, listings (as sets) exactly the live children plus '..', walks and qids as in the model, no call may panic; after clunking every fid the validator requires "
+             "nref == parent links for every node. Concurrent variant: one goroutine per session, race detector, no panic, final validator. "
+             "Non-trivial = a write not at offset 0, a '..' walk or a walk from a removed node, or two sessions touching one node.",
+        require_classes=dict(quick=["write_at_nonzero_offset", "dotdot_walk", "walk_from_removed_node", "node_shared_by_sessions", "remove_stale_handle", "huge_offset"], thorough=[]),
+        assumptions=["a read at an offset beyond the end (incl. offsets >= 2^63) must deliver zero bytes; whether an error accompanies it is not asserted",
+                     "'..' at the root is rejected (the library's documented path rule)",
+                     "I/O through a fid that was walked in place while open is not asserted (the property text does not determine its meaning), only that nothing panics",
+                     "Dir.Length in listings/stat is not compared (the property does not mention it)"],
+    ),
 }
